@@ -50,6 +50,16 @@ def run(res, a):
     if a.replay:
         rep = json.load(open(a.replay))
         c = {"id": "replay", "line": rep["case"], "kind": "replay", "meta": rep.get("meta"), "stream": rep.get("stream", "")}
+        if rep["case"].startswith("xdec ") or rep["case"].startswith("sk "):
+            import os
+            fam = "frame" if rep["case"].startswith("xdec ") else "stack"
+            o = core.shard_run(os.path.join(core.BUILD, "hcdrv"), fam, ["replay " + rep["case"]]).get("replay", "NO-OUTPUT")
+            t = rep["case"].split(" ")
+            okk = (o == "r1=%s r2=%s" % (t[2], t[3])) if fam == "frame" else o.endswith("VR=fresh")
+            res.cases += 1
+            if not okk:
+                res.violations.append(("xsession", dict(rep, implementation_observed=o[:300])))
+            return
         if rep.get("family") == "conn":
             c["kind"] = "conn/replay"
             core.run_correspondence(res, "conn", [c], ConnLevel)
@@ -222,6 +232,35 @@ def run(res, a):
                                    "line": "cr %s %s %s" % (shared.hex(), evs, ",".join([str(bsz)] * nreads)), "stream": stream.hex(),
                                    "meta": {"honest": wire.hex(), "chunks": [c.hex() for c in ch], "note": note + ", " + segname + ", buffer %d" % bsz}})
     core.run_correspondence(res, "conn", ccases, ConnLevel, corr_name="correspondence model<->code, family conn (hap.Connection.Read over altered streams)")
+    # ---- pass 4 (implementation side only): two receiving sessions interleaved, and replays ACROSS sessions at the level
+    # where sessions are made: a recorded pair-verify exchange (with its frames) offered again on later connections ----
+    import os
+    xs = [{"id": "x%d" % i, "kind": "two-sessions", "line": "xdec %s %s %s" % (rb(rng, 32).hex(), rb(rng, a_).hex(), rb(rng, b_).hex())}
+          for i, (a_, b_) in enumerate([(40, 40), (40, 9), (9, 700), (1024, 1024), (1500, 30), (3, 2000)] * (1 if quick else 6))]
+    obs = core.shard_run(os.path.join(core.BUILD, "hcdrv"), "frame", ["%s %s" % (c["id"], c["line"]) for c in xs])
+    vr = [{"id": "vr%d" % i, "kind": "replay-across-sessions", "line": "sk nacc=0 N:h S:h:c0:ok VR:c0:%d" % (40 if quick else 300)} for i in range(1 if quick else 3)]
+    obs.update(core.shard_run(os.path.join(core.BUILD, "hcdrv"), "stack", ["%s %s" % (c["id"], c["line"]) for c in vr]))
+    bad = 0
+    for c in xs + vr:
+        o = obs.get(c["id"], "NO-OUTPUT")
+        res.cases += 1
+        h = core.sha(c["line"])
+        res.distinct.add(h)
+        res.nontrivial.add(h)
+        res.count("kind:" + c["kind"])
+        why = None
+        if c["kind"] == "two-sessions":
+            t = c["line"].split(" ")
+            if o != "r1=%s r2=%s" % (t[2], t[3]):
+                why = "two sessions receiving at the same time: a caller that had read one byte of its frame when the other session decrypted did not get exactly what its own peer sent"
+        elif not o.endswith("VR=fresh"):
+            why = "a recorded connection (pair-verify start, finish and frames) offered again on a later connection was accepted: " + o.split(" ")[-1]
+        if why:
+            bad += 1
+            res.violations.append(("xsession", {"property": ID, "family": "frame" if c["kind"] == "two-sessions" else "stack", "seed": res.seed, "case": c["line"],
+                                                "implementation_observed": o[:300], "required": why, "failing_input_found": True,
+                                                "replay": "python3 tools/check.py C05 --replay <this file>"}))
+    res.obligations.append(("implementation-side runs: two receiving sessions interleaved; a recorded exchange replayed on later connections", bad == 0, "%d runs, %d failing" % (len(xs) + len(vr), bad)))
 
 
 class Counter:
